@@ -27,7 +27,8 @@ BOUNDS = {'quick': '1-2 utterances, 0-2 pre- and 0-2 post-processors, channels 1
 OUTSIDE = ['JSON vs YAML parser equivalence (third-party parsers; exercised concretely in the replay only)', 'float32 rounding', 'real Kaldi I/O',
            'real torch modules (their equivalence with the NumPy classes is C14/C18)',
            'torch tool: a channel mismatch raises ValueError and aborts the run (treated as exclusion by error; runs with a mismatch are not constrained further)']
-ASSUMPTIONS = ['stub contracts: table reader yields (id, (buffer, rate, duration)); writer stores what it is given; DataLoader yields items in order, one __getitem__ per index, batches of one',
+ASSUMPTIONS = ['Kaldi wave reader contract: duration = samples / sampling rate, sampling rates are positive integers <= 48000',
+               'stub contracts: table reader yields (id, (buffer, rate, duration)); writer stores what it is given; DataLoader yields items in order, one __getitem__ per index, batches of one',
                'pre-processors draw from the global generator: term PRE(i, x, rng_state), state advanced per application']
 CONFIG_TIME_LIMIT = {'quick': 600, 'thorough': 1800}
 
